@@ -131,7 +131,7 @@ func loadWithProbe(db *DB, dir string, concurr int) (res loadRes, stuck bool, in
 	// unchanged (same goroutines, same states) in four consecutive samples.
 	wait := 250 * time.Millisecond
 	lastSig, same := "", 0
-	for i := 0; i < 40; i++ {
+	for i := 0; i < 300; i++ { // a call whose goroutines keep running is given ~10 min (loaded machines) before "inconclusive"
 		select {
 		case res = <-ch:
 			return res, false, false
